@@ -301,7 +301,11 @@ def t_dot_segments(p, rng):
         return None
     segs = list(p["segments"])
     i = rng.randint(0, len(segs))
-    ins = rng.choice([["."], ["x", ".."], [""], [".", "."], ["x", "y", "..", ".."], ["%2E"], ["x", "%2e%2E"]])
+    choices = [["."], ["x", ".."], [""], [".", "."], ["x", "y", "..", ".."], ["%2E"], ["x", "%2e%2E"]]
+    if i == 0 and (segs or p["trailing"]):
+        # a '..' at the root is dropped (it cannot pop the root): '/../p' resolves to '/p'
+        choices = choices + [[".."], ["..", ".."], ["%2E%2E"], ["..", "x", ".."]] * 2
+    ins = rng.choice(choices)
     # inserting before position i never changes what the rest resolves to
     if i == len(segs) and not p["trailing"]:
         # appending 'x/..' at the very end would add a trailing slash: insert before the last segment instead
